@@ -310,6 +310,9 @@ func annotate(T *Tables, ev M) {
 			if ev["ev"] != "add" && string(b) == "." {
 				dom = false
 			}
+			if string(b) == ".goit" || strings.HasPrefix(string(b), ".goit/") {
+				dom = false // a path inside the metadata directory is a hostile argument (C17, C18), not a C04/C09 input
+			}
 		}
 	case "branch", "branchr", "switchc", "switch", "branchd":
 		T.Name(get("name"))
